@@ -21,7 +21,7 @@ MSEL = mcq("MC_MaskSelect")
 #         the evidence) when the hooked harness does not build against /repo's tree -- the public-API scenarios still decide.
 #   mc:   per tier, list of (module, cfg) model-checking runs (read nothing from /repo)
 PROPS = {
-    "C01": dict(scen=[("core", "cells", True), ("core", "lengths", True)], mc=PIPE, invariants="RoundTripInv (MC), RoundTrip (TV)"),
+    "C01": dict(scen=[("core", "cells", True), ("core", "lengths", True), ("core", "structured", True)], mc=PIPE, invariants="RoundTripInv (MC), RoundTrip (TV)"),
     "C02": dict(scen=[("core", "cells", True), ("core", "nearblocks", True), ("core", "corrupt", True), ("hooked", "tables", False)], mc=mc_join(PIPE, LEMMAS),
                 invariants="BlocksValidInv (MC), CodewordCount/RemainderBitsZero/BlockShape/SyndromesZero + Corrupt/Recover (TV), BMLemma"),
     "C03": dict(scen=[("core", "cells", True), ("hooked", "maskop", False), ("hooked", "tables", False)], mc=mc_join(PIPE, LEMMAS),
@@ -30,7 +30,7 @@ PROPS = {
                 invariants="FormatVersionTruthInv (MC), FormatCopiesExact/VersionInfoExact/ReportedFieldsTruth/ReportedModeTruth/ForcedOptionsHonoured (TV), TableLemmas (BCH distances)"),
     "C05": dict(scen=[("core", "thresholds", True), ("hooked", "versionget", False)], mc=mc_join(PIPE, LEMMAS),
                 invariants="MinimalVersionInv, OutcomeTotal (MC), MinimalVersion/ExpectedOutcome (TV), EncodeLemmas (monotonicity)"),
-    "C06": dict(scen=[("core", "cells", True), ("core", "lengths", True), ("hooked", "encode", False), ("hooked", "tables", False)], mc=PIPE,
+    "C06": dict(scen=[("core", "cells", True), ("core", "lengths", True), ("core", "structured", True), ("hooked", "encode", False), ("hooked", "tables", False)], mc=PIPE,
                 invariants="DataCodewordsISOInv, StagedEqualsClosedForm (MC), DataCodewordsISO (TV)"),
     "C07": dict(scen=[("core", "cells", True), ("core", "nearblocks", True), ("hooked", "rs", False)], mc=mc_join(PIPE, LEMMAS),
                 invariants="ECIsRemainderInv (MC), ECIsRemainder/Poly/Division/DivBlock (TV), FieldLemmas"),
